@@ -3,11 +3,13 @@ C05 – register constraints are an invariant of every checked-operation history
 Property theorems only.
 
 Proved here: the invariant for typed set and the bit operations (any history of them), that every
-refused typed / bit / block operation leaves the table unchanged, and the exact effect and the
-refusals of bit set / clear.  The invariant across block writes and the post-state of sanitise are
-NOT proved (named `…_partial` below); they are covered by the correspondence run only.
+refused typed / bit / block operation leaves the table unchanged, the exact effect and the
+refusals of bit set / clear, and the invariant across BLOCK WRITES: `block_write_preserves_sat` (every
+overlapped register ends up holding exactly the overlay that was validated, every other register what it
+held) and `history_with_block_writes` (any history of typed sets, bit operations and block writes).
 -/
 import Ufw.Props.C01
+import Ufw.Lemmas.RegBlock
 
 namespace Ufw.Props.C05
 open Ufw Ufw.Model.RegTable Ufw.Lemmas.RegTable
@@ -267,6 +269,103 @@ theorem history_preserves_sat (cb : Nat → Value → Bool) (ops : List Op) :
       · obtain ⟨k1, k2⟩ := key idx v hv
         simp only [step, h]; exact ih _ k1 hrest k2
 
+/-- A successful block write keeps the invariant: afterwards every register still decodes and satisfies its
+    constraint - the overlapped ones hold exactly the overlay that was validated, all others what they held -
+    and the structural facts (areas sized and disjoint, registers linked into their areas, ascending) persist. -/
+theorem block_write_preserves_sat (cb : Nat → Value → Bool) (t : Table) (addr : Nat) (buf : List Atom)
+    (hs : Shape t) (hl : Linked t) (hasc : Ascending t)
+    (hinv : ∀ j, j < t.entries.length → Sat cb t j)
+    (hok : (register_block_write cb t addr buf).1.code = .success) :
+    Shape (register_block_write cb t addr buf).2 ∧ Linked (register_block_write cb t addr buf).2 ∧
+    Ascending (register_block_write cb t addr buf).2 ∧
+    (register_block_write cb t addr buf).2.entries.length = t.entries.length ∧
+    ∀ j, j < t.entries.length → Sat cb (register_block_write cb t addr buf).2 j := by
+  by_cases hne : buf = []
+  · have : (register_block_write cb t addr buf).2 = t := by
+      subst hne
+      simp only [register_block_write, List.length_nil, ↓reduceIte]
+      split <;> rfl
+    rw [this]
+    exact ⟨hs, hl, hasc, rfl, hinv⟩
+  · obtain ⟨hi, hm, t'', hb, ht'⟩ := Ufw.Props.C02.block_write_success_inv cb t addr buf hs hne hok
+    rw [ht']
+    obtain ⟨hs'', heq'', hlen'', cells⟩ := blockWrite_spec buf.length t addr buf t'' hs hb
+    have hent : t''.entries = t.entries := by rw [heq'']
+    have hbe : t''.bigEndian = t.bigEndian := by rw [heq'']
+    have hini : t''.initialised = t.initialised := by rw [heq'']
+    have hdi : t''.duringInit = t.duringInit := by rw [heq'']
+    have tent : ∀ (i : Nat) (e : Entry), t.entries[i]? = some e →
+        (reg_taint_in_range t'' addr buf.length).entries[i]? =
+          some (if e.address + e.type.size ≤ addr ∨ addr + buf.length ≤ e.address then e else { e with touched := true }) := by
+      intro i e he
+      exact Ufw.Props.C02.taint_spec t'' addr buf.length i e (by rw [hent]; exact he)
+    refine ⟨⟨hs''.sized, hs''.disj⟩, ?_, ?_, ?_, ?_⟩
+    · -- linked
+      intro i e' he'
+      have hlt : i < t.entries.length := by
+        have : i < (reg_taint_in_range t'' addr buf.length).entries.length := by
+          rcases Nat.lt_or_ge i (reg_taint_in_range t'' addr buf.length).entries.length with h | h
+          · exact h
+          · rw [List.getElem?_eq_none h] at he'; simp at he'
+        simpa [reg_taint_in_range, hent] using this
+      obtain ⟨e, he⟩ : ∃ e, t.entries[i]? = some e := ⟨_, List.getElem?_eq_getElem hlt⟩
+      rw [tent i e he] at he'
+      obtain ⟨a, ha, lb, lo, le⟩ := hl i e he
+      obtain ⟨a', g1, g2, _, _⟩ := cells e.area a ha
+      have hb' : a'.base = a.base := by rw [g2]
+      have hz' : a'.size = a.size := by rw [g2]
+      have hee : e'.area = e.area ∧ e'.address = e.address ∧ e'.offset = e.offset ∧ e'.type = e.type := by
+        have := Option.some.inj he'
+        rw [← this]; split <;> simp
+      obtain ⟨x1, x2, x3, x4⟩ := hee
+      refine ⟨a', by rw [x1, taint_areas]; exact g1, by rw [hb', x2]; exact lb, by rw [x3, x2, hb']; exact lo,
+        by rw [x2, x4, hb', hz']; exact le⟩
+    · -- ascending
+      simp only [Ascending, reg_taint_in_range, hent]
+      rw [List.pairwise_map]
+      refine hasc.imp ?_
+      intro x y hxy
+      split <;> split <;> simpa using hxy
+    · simp [reg_taint_in_range, hent]
+    · -- the invariant
+      intro j hj
+      obtain ⟨e0, v0, he0, hget, hval⟩ := hinv j hj
+      obtain ⟨_, e, a, raw, he, ha, hr, hd⟩ := get_success_inv t j v0 hget
+      have hee : e0 = e := by rw [he0] at he; exact Option.some.inj he
+      subst hee
+      obtain ⟨a', g1, gread⟩ := blockWrite_register buf.length t t'' addr buf hs hl hb j e0 he0 a ha raw hr
+      have hent' := tent j e0 he0
+      by_cases hov : e0.address + e0.type.size ≤ addr ∨ addr + buf.length ≤ e0.address
+      · simp only [hov, ↓reduceIte] at gread hent'
+        refine ⟨e0, v0, hent', ?_, ?_⟩
+        · simp only [register_get, reg_taint_in_range, hini, hi, Bool.not_true, Bool.false_eq_true, ↓reduceIte]
+          have : (t''.entries.map fun e => if e.address + e.type.size ≤ addr ∨ addr + buf.length ≤ e.address then e
+              else { e with touched := true })[j]? = some e0 := hent'
+          simp only [this, g1, gread, hbe, hd, ↓reduceIte]
+        · rw [validate_congr cb t _ e0 e0 v0 (by simp [reg_taint_in_range, hdi]) rfl rfl]; exact hval
+      · simp only [hov, ↓reduceIte] at gread hent'
+        obtain ⟨a2, raw2, ha2, hr2, hok2, hval2⟩ :=
+          Ufw.Props.C02.malformed_ok cb t addr buf t.entries hasc hm e0 (List.mem_of_getElem? he0)
+            (by omega) (by omega)
+        have ea : a2 = a := by rw [ha] at ha2; exact (Option.some.inj ha2).symm
+        subst ea
+        have er : raw2 = raw := by rw [hr] at hr2; exact (Option.some.inj hr2).symm
+        subst er
+        generalize hraw' : raw2.take (max addr e0.address - e0.address) ++
+          ((buf.drop (max addr e0.address - addr)).take (min (addr + buf.length) (e0.address + e0.type.size) - max addr e0.address) ++
+            raw2.drop (max addr e0.address - e0.address + (min (addr + buf.length) (e0.address + e0.type.size) - max addr e0.address))) = raw' at gread hok2 hval2
+        rcases hdd : des t.bigEndian e0.type raw' with ⟨v1, ok1⟩
+        rw [hdd] at hok2 hval2
+        simp only at hok2 hval2
+        subst hok2
+        refine ⟨{ e0 with touched := true }, v1, hent', ?_, ?_⟩
+        · simp only [register_get, reg_taint_in_range, hini, hi, Bool.not_true, Bool.false_eq_true, ↓reduceIte]
+          have : (t''.entries.map fun e => if e.address + e.type.size ≤ addr ∨ addr + buf.length ≤ e.address then e
+              else { e with touched := true })[j]? = some { e0 with touched := true } := hent'
+          simp only [this, g1, gread, hbe, hdd, ↓reduceIte]
+        · rw [validate_congr cb t _ e0 { e0 with touched := true } v1 (by simp [reg_taint_in_range, hdi]) rfl rfl]
+          exact hval2
+
 /-- every refused block write leaves the table unchanged -/
 theorem block_write_refused_unchanged (cb : Nat → Value → Bool) (t : Table) (addr : Nat) (buf : List Atom)
     (h : (register_block_write cb t addr buf).1.code ≠ .success) : (register_block_write cb t addr buf).2 = t := by
@@ -285,5 +384,90 @@ theorem block_write_refused_unchanged (cb : Nat → Value → Bool) (t : Table) 
       · rfl
     · rfl
   · rfl
+
+
+/-- a block write - accepted or refused - does not move any register -/
+theorem block_write_keeps_layout (cb : Nat → Value → Bool) (t : Table) (addr : Nat) (buf : List Atom) (hs : Shape t)
+    (hl : Layout t) : Layout (register_block_write cb t addr buf).2 := by
+  by_cases hok : (register_block_write cb t addr buf).1.code = .success
+  · by_cases hne : buf = []
+    · have : (register_block_write cb t addr buf).2 = t := by
+        subst hne
+        simp only [register_block_write, List.length_nil, ↓reduceIte]
+        split <;> rfl
+      rw [this]; exact hl
+    · obtain ⟨_, _, t'', hb, ht'⟩ := Ufw.Props.C02.block_write_success_inv cb t addr buf hs hne hok
+      rw [ht']
+      obtain ⟨_, heq'', _, _⟩ := blockWrite_spec buf.length t addr buf t'' hs hb
+      have hent : t''.entries = t.entries := by rw [heq'']
+      intro i j e e' hij h1 h2
+      simp only [reg_taint_in_range, hent, List.getElem?_map, Option.map_eq_some_iff] at h1 h2
+      obtain ⟨x, hx, rfl⟩ := h1
+      obtain ⟨y, hy, rfl⟩ := h2
+      have := hl i j x y hij hx hy
+      simp only [Apart] at this ⊢
+      split <;> split <;> simpa using this
+  · rw [block_write_refused_unchanged cb t addr buf hok]; exact hl
+
+/-- the checked operations that change storage: typed set, bit set, bit clear, block write -/
+inductive Op2
+  | set (idx : Nat) (v : Value)
+  | bitSet (idx : Nat) (mask : Value)
+  | bitClear (idx : Nat) (mask : Value)
+  | blockWrite (addr : Nat) (buf : List Atom)
+
+def Op2.wf : Op2 → Prop
+  | .set _ v | .bitSet _ v | .bitClear _ v => v.bits < 2 ^ v.type.bits
+  | .blockWrite _ _ => True
+
+def step2 (cb : Nat → Value → Bool) (t : Table) : Op2 → Table
+  | .set idx v => (register_set cb t idx v).2
+  | .bitSet idx m => (register_bit_op cb t idx m true).2
+  | .bitClear idx m => (register_bit_op cb t idx m false).2
+  | .blockWrite addr buf => (register_block_write cb t addr buf).2
+
+/-- what `register_init` establishes and every checked operation keeps -/
+structure Inv (cb : Nat → Value → Bool) (t : Table) : Prop where
+  layout : Layout t
+  shape : Shape t
+  linked : Linked t
+  ascending : Ascending t
+  sat : ∀ j, j < t.entries.length → Sat cb t j
+
+theorem inv_set (cb : Nat → Value → Bool) (t : Table) (idx : Nat) (v : Value) (hv : v.bits < 2 ^ v.type.bits)
+    (h : Inv cb t) : Inv cb (register_set cb t idx v).2 := by
+  obtain ⟨s1, s2, s3⟩ := set_keeps_structure cb t idx v true h.shape h.linked h.ascending
+  exact ⟨(set_keeps_layout cb t idx v h.layout).1, s1, s2, s3, set_preserves_sat cb t idx v h.layout hv h.sat⟩
+
+/-- The invariant over every history of checked operations that change storage - typed sets, bit sets, bit
+    clears and block writes in any order, accepted or refused: from a table in which every register decodes and
+    satisfies its constraint, every table reached has that property again. -/
+theorem history_with_block_writes (cb : Nat → Value → Bool) (ops : List Op2) :
+    ∀ (t : Table), (∀ o ∈ ops, o.wf) → Inv cb t → Inv cb (ops.foldl (step2 cb) t) := by
+  induction ops with
+  | nil => intro t _ h; exact h
+  | cons o os ih =>
+    intro t hw hinv
+    simp only [List.foldl_cons]
+    have how := hw o (List.mem_cons_self ..)
+    have hrest : ∀ x ∈ os, x.wf := fun x hx => hw x (List.mem_cons_of_mem _ hx)
+    cases o with
+    | set idx v => exact ih _ hrest (inv_set cb t idx v how hinv)
+    | bitSet idx m =>
+      rcases bit_op_is_set cb t idx m true how with h | ⟨v, hv, h⟩
+      · simp only [step2, h]; exact ih t hrest hinv
+      · simp only [step2, h]; exact ih _ hrest (inv_set cb t idx v hv hinv)
+    | bitClear idx m =>
+      rcases bit_op_is_set cb t idx m false how with h | ⟨v, hv, h⟩
+      · simp only [step2, h]; exact ih t hrest hinv
+      · simp only [step2, h]; exact ih _ hrest (inv_set cb t idx v hv hinv)
+    | blockWrite addr buf =>
+      simp only [step2]
+      by_cases hok : (register_block_write cb t addr buf).1.code = .success
+      · obtain ⟨b1, b2, b3, b4, b5⟩ :=
+          block_write_preserves_sat cb t addr buf hinv.shape hinv.linked hinv.ascending hinv.sat hok
+        exact ih _ hrest ⟨block_write_keeps_layout cb t addr buf hinv.shape hinv.layout, b1, b2, b3,
+          fun j hj => b5 j (by rw [← b4]; exact hj)⟩
+      · rw [block_write_refused_unchanged cb t addr buf hok]; exact ih t hrest hinv
 
 end Ufw.Props.C05
